@@ -405,7 +405,7 @@ fn real_upgrade(cfg: &Cfg, rep: &mut Report, h: u64) {
 
 pub fn run(cfg: &Cfg, rep: &mut Report) {
     rep.rule = "(a) pausable and fungible-pausable examples: histories of every pausable entry point with pause/unpause by owner and strangers, signed or not; (b) allow/block lists on wrappers wiring all five overridden entry points and on the two examples: random histories with list toggles plus an exhaustive sweep entry point x assignment of list status to (from, to, spender); (c) fungible-capped example: mints around cap-supply and i128 overflow for caps {0,1,1000,2^70,MAX-1,MAX}; (d) migration: natively registered UpgradeableMigratable contract (flag set as upgrade sets it) and the v1 example upgraded by the working tree's macro to the repository's prebuilt v2 wasm. Distinct case = (mechanism, entry point, gate/list assignment vector, outcome).".into();
-    let nh = cfg.pick(3u64, 30);
+    let nh = cfg.pick(12u64, 80);
     for k in 0..nh {
         if cfg.runs(k) {
             pausable_example(cfg, rep, k);
